@@ -1,10 +1,156 @@
-(* Soundness of the relational feasibility domain (Analysis/FeasibleRel.v) and the theorem over histories of tasks.
-   SKELETON: the definitions and the statements below are fixed; every `(* PROVE *)` is to be replaced by a proof. *)
-From Coq Require Import String ZArith List Bool Arith Lia.
+(* Soundness of the relational feasibility domain (Analysis/FeasibleRel.v) and the theorem over histories of tasks. *)
+From Coq Require Import String ZArith List Bool Arith Lia ZifyBool.
 From OV Require Import Base.FloatKey Model.Clip Model.IR Model.IRSem Analysis.AbsInt Analysis.SemLemmas Analysis.Feasible Analysis.FeasibleRel.
+From OV Require Analysis.Counts Analysis.BestMinSound.
 Import ListNotations.
 Close Scope Z_scope.
 Open Scope nat_scope.
+
+(* ---------------------------------------------------------------- lattice facts *)
+Lemma lr_ge_refl a : lr_ge a a = true. Proof. destruct a; reflexivity. Qed.
+Lemma lr_ge_trans a b c : lr_ge a b = true -> lr_ge b c = true -> lr_ge a c = true.
+Proof. destruct a, b, c; simpl; intros; try reflexivity; try discriminate. Qed.
+Lemma lr_ge_min_l a b : lr_ge a (lr_min a b) = true. Proof. destruct a, b; reflexivity. Qed.
+Lemma lr_ge_min_r a b : lr_ge b (lr_min a b) = true. Proof. destruct a, b; reflexivity. Qed.
+
+Lemma implb_refl a : implb a a = true. Proof. destruct a; reflexivity. Qed.
+Lemma implb_trans a b c : implb a b = true -> implb b c = true -> implb a c = true.
+Proof. destruct a, b, c; simpl; intros; try reflexivity; try discriminate. Qed.
+Lemma implb_and_l a b : implb (a && b) a = true. Proof. destruct a, b; reflexivity. Qed.
+Lemma implb_and_r a b : implb (a && b) b = true. Proof. destruct a, b; reflexivity. Qed.
+
+Lemma rel_leb_spec q s : rel_leb q s = true <->
+  implb (ge_done s) (ge_done q) = true /\ implb (ge_cur s) (ge_cur q) = true /\ implb (ge_todo s) (ge_todo q) = true /\
+  implb (lt_cb s) (lt_cb q) = true /\ lr_ge (locrel q) (locrel s) = true /\ implb (bguard s) (bguard q) = true.
+Proof. unfold rel_leb. rewrite !andb_true_iff. tauto. Qed.
+
+Lemma rel_leb_refl q : rel_leb q q = true.
+Proof. apply rel_leb_spec. rewrite !implb_refl, lr_ge_refl. tauto. Qed.
+
+Lemma rel_leb_trans a b c : rel_leb a b = true -> rel_leb b c = true -> rel_leb a c = true.
+Proof.
+  rewrite !rel_leb_spec. intros (H1 & H2 & H3 & H4 & H5 & H6) (K1 & K2 & K3 & K4 & K5 & K6).
+  repeat split; try (eapply implb_trans; eassumption). eapply lr_ge_trans; eassumption.
+Qed.
+
+Lemma rel_join_l a b : rel_leb a (rel_join a b) = true.
+Proof. apply rel_leb_spec. simpl. rewrite !implb_and_l, lr_ge_min_l. tauto. Qed.
+Lemma rel_join_r a b : rel_leb b (rel_join a b) = true.
+Proof. apply rel_leb_spec. simpl. rewrite !implb_and_r, lr_ge_min_r. tauto. Qed.
+
+Lemma ra_leb_refl a : ra_leb a a = true.
+Proof. unfold ra_leb. rewrite fa_leb_refl, rel_leb_refl. reflexivity. Qed.
+Lemma ra_leb_trans a b c : ra_leb a b = true -> ra_leb b c = true -> ra_leb a c = true.
+Proof.
+  unfold ra_leb. rewrite !andb_true_iff. intros [H1 H2] [K1 K2].
+  split; [eapply fa_leb_trans|eapply rel_leb_trans]; eassumption.
+Qed.
+Lemma ra_join_l a b : ra_leb a (ra_join a b) = true.
+Proof. unfold ra_leb, ra_join. simpl. rewrite fa_join_l, rel_join_l. reflexivity. Qed.
+Lemma ra_join_r a b : ra_leb b (ra_join a b) = true.
+Proof. unfold ra_leb, ra_join. simpl. rewrite fa_join_r, rel_join_r. reflexivity. Qed.
+
+Lemma with_bguard_id q : with_bguard q (bguard q) = q.
+Proof. destruct q; reflexivity. Qed.
+
+Lemma fit_written_comm r1 r2 q : fit_written r1 (fit_written r2 q) = fit_written r2 (fit_written r1 q).
+Proof. destruct q as [a b c d e g]; destruct r1, r2, e; reflexivity. Qed.
+
+Lemma wr_cur_best_comm u v a : wr Cur u (wr Best v a) = wr Best v (wr Cur u a).
+Proof. reflexivity. Qed.
+
+(* the analysis never invents the fact [lt_cb] in an atom *)
+Lemma fit_written_lt r q : lt_cb (fit_written r q) = true -> lt_cb q = true.
+Proof. destruct r; simpl; intros H; try discriminate; assumption. Qed.
+Lemma fit_from_best_lt r q : lt_cb (fit_from_best r q) = true -> lt_cb q = true.
+Proof. destruct r; simpl; intros H; try discriminate; assumption. Qed.
+
+Lemma rel_atom_lt s a q : lt_cb (rel_atom s a q) = true -> lt_cb q = true.
+Proof.
+  destruct s; simpl; intros H; try assumption; try discriminate;
+    repeat match type of H with
+           | context[if ?b then _ else _] => destruct b
+           end; simpl in H; try assumption; try discriminate;
+    repeat (first [apply fit_written_lt in H | apply fit_from_best_lt in H]); assumption.
+Qed.
+
+Lemma norm_lt x : lt_cb (snd (norm x)) = lt_cb (snd x).
+Proof. unfold norm. destruct (is_feas (f_best (fst x))); reflexivity. Qed.
+
+(* ---------------------------------------------------------------- the pieces of [ra_atom] *)
+Definition a2_of (s : stmt) (a : fa) (q : rel) (a1 : fa) : fa :=
+  match s with
+  | BestPosFromLoc => if lt_cb q && match locrel q with LAll => true | _ => false end then set_best_lvl a1 Feas else a1
+  | SwapPos r1 r2 =>
+      if (is_cur r1 && is_best r2) || (is_best r1 && is_cur r2)
+      then wr Best (f_cur a) (wr Cur (f_best a) a) else a1
+  | _ => a1
+  end.
+
+Definition al2_of (l : nat) (s : stmt) (q : rel) : list alarm :=
+  match s with
+  | Hook | Dump => if bguard q then [] else c01r l "the best position is reported while it may be neither feasible nor the untouched placeholder"
+  | _ => []
+  end.
+
+Lemma ra_atom_eq l s a q :
+  ra_atom l s (a, q) = (norm (a2_of s a q (fst (fa_atom l s a)), rel_atom s a q), snd (fa_atom l s a) ++ al2_of l s q).
+Proof. unfold ra_atom. destruct (fa_atom l s a) as [a1 al]. reflexivity. Qed.
+
+Lemma ra_atom_inv l s a q a' : ra_atom l s (a, q) = (a', []) ->
+  exists a1, fa_atom l s a = (a1, []) /\ a' = norm (a2_of s a q a1, rel_atom s a q) /\
+             ((s = Hook \/ s = Dump) -> bguard q = true).
+Proof.
+  rewrite ra_atom_eq. destruct (fa_atom l s a) as [a1 al]. simpl. intros H. injection H as <- Hal.
+  apply app_eq_nil in Hal as [-> Hal2]. exists a1. split; [reflexivity|]. split; [reflexivity|].
+  intros [->| ->]; simpl in Hal2; destruct (bguard q); try reflexivity; discriminate.
+Qed.
+
+(* ---------------------------------------------------------------- reads and writes *)
+Lemma upd_upd {A} i (a1 a2 : A) l l1 : upd i a1 l = Some l1 -> upd i a2 l1 = upd i a2 l.
+Proof.
+  revert i l1. induction l as [|b t IH]; intros [|i] l1 H; simpl in H; try discriminate.
+  - injection H as <-. reflexivity.
+  - destruct (upd i a1 t) as [t'|] eqn:E; [|discriminate]. injection H as <-. simpl. rewrite (IH _ _ E). reflexivity.
+Qed.
+
+(* [fback x x']: every slot of x' existed in x with the same fitness *)
+Definition fback (x x' : st) : Prop :=
+  forall j ag', nth_error (pop x') j = Some ag' -> exists ag, nth_error (pop x) j = Some ag /\ afit ag' = afit ag.
+
+Lemma fback_refl x x' : pop x' = pop x -> fback x x'.
+Proof. intros E j ag' H. rewrite E in H. exists ag'. split; [assumption|reflexivity]. Qed.
+
+Lemma fback_trans x y z : fback x y -> fback y z -> fback x z.
+Proof.
+  intros H1 H2 j c Hc. destruct (H2 j c Hc) as (b & Hb & E1). destruct (H1 j b Hb) as (a & Ha & E2).
+  exists a. split; [assumption|congruence].
+Qed.
+
+Lemma setr_fback r cur ag ag' x x' :
+  getr r cur x = Some ag -> setr r cur ag' x = Some x' -> afit ag' = afit ag ->
+  fback x x' /\ afit (best x') = afit (best x) /\ loc x' = loc x /\ (r <> Best -> best x' = best x).
+Proof.
+  intros Hg Hs Hf. apply setr_written in Hs.
+  destruct Hs as [-> -> | -> -> | i l -> -> Hu -> | i l Hsl Hi Hu ->].
+  - simpl in Hg. injection Hg as <-. simpl. repeat split; [apply fback_refl; reflexivity|assumption|congruence].
+  - simpl. repeat split. apply fback_refl; reflexivity.
+  - simpl. repeat split. apply fback_refl; reflexivity.
+  - rewrite getr_slot, Hi in Hg by assumption. simpl. repeat split.
+    intros j b Hn. simpl in Hn. destruct (nth_error_upd_cases _ _ _ _ _ _ Hu Hn) as [[-> ->]|[Hne Hn']].
+    + exists ag. split; assumption.
+    + exists b. split; [assumption|reflexivity].
+Qed.
+
+(* a write leaves everything but the written reference alone *)
+Lemma setr_frame r cur ag' x x' : setr r cur ag' x = Some x' ->
+  loc x' = loc x /\ (r <> Best -> best x' = best x) /\ length (pop x') = length (pop x) /\
+  (slotlike r = false -> pop x' = pop x).
+Proof.
+  intros Hs. apply setr_written in Hs.
+  destruct Hs as [-> -> | -> -> | i l -> -> Hu -> | i l Hsl Hi Hu ->]; simpl; repeat split; try congruence.
+  eapply upd_length; eassumption.
+Qed.
 
 Section RelSound.
   Variables (lbs ubs : list Z) (f : contents -> Z) (n_iter : nat).
@@ -39,22 +185,819 @@ Section RelSound.
   (* the state a task starts in *)
   Definition start_ok (x : st) : Prop := RG ra_init None x [].
 
+  Notation FG := (FG lbs ubs INIT).
+  Notation xexec := (exec lbs ubs f hk n_iter okc).
+  Notation xexec_atom := (exec_atom lbs ubs f hk okc).
+
+  Lemma below_eq x x' ag ag' : afit ag' = afit ag -> afit (best x') = afit (best x) -> below x' ag' = below x ag.
+  Proof. unfold below. intros -> ->. reflexivity. Qed.
+
+  Lemma best_ok_eq x x' : best x' = best x -> best_ok x -> best_ok x'.
+  Proof. unfold best_ok. intros ->. auto. Qed.
+
+  Lemma RelG_mono q s cur x h : rel_leb q s = true -> RelG q cur x h -> RelG s cur x h.
+  Proof.
+    rewrite rel_leb_spec. intros (H1 & H2 & H3 & H4 & H5 & H6) [G1 G2 G3 G4 G5 G6 G7].
+    constructor; try assumption.
+    - intros E. apply G1. destruct (ge_done s), (ge_done q); try reflexivity; discriminate.
+    - intros E. apply G2. destruct (ge_cur s), (ge_cur q); try reflexivity; discriminate.
+    - intros E. apply G3. destruct (ge_todo s), (ge_todo q); try reflexivity; discriminate.
+    - intros E. apply G4. destruct (lt_cb s), (lt_cb q); try reflexivity; discriminate.
+    - intros j ag c Hn Hl Hb Hm. eapply G5; try eassumption.
+      destruct (locrel s), (locrel q); simpl in H5; try discriminate; try assumption; try exact I; contradiction.
+    - intros E. apply G6. destruct (bguard s), (bguard q); try reflexivity; discriminate.
+  Qed.
+
+  Lemma RG_mono a b cur x h : ra_leb a b = true -> RG a cur x h -> RG b cur x h.
+  Proof.
+    unfold ra_leb. rewrite andb_true_iff. intros [H1 H2] [K1 K2]. split.
+    - eapply (FG_mono lbs ubs f INIT); eassumption.
+    - eapply RelG_mono; eassumption.
+  Qed.
+
+  Lemma RelG_events q cur x h evs : RelG q cur x h -> Forall ev_ok2 evs -> RelG q cur x (h ++ evs).
+  Proof. intros [G1 G2 G3 G4 G5 G6 G7] H. constructor; try assumption. apply Forall_app. split; assumption. Qed.
+
+  Lemma RelG_nil q cur x h : RelG q cur x h -> RelG q cur x (h ++ []).
+  Proof. rewrite app_nil_r. auto. Qed.
+
+  (* a step that keeps every fitness and the local positions *)
+  Lemma RelG_frame q b cur x x' h :
+    fback x x' -> afit (best x') = afit (best x) -> loc x' = loc x -> (b = true -> best_ok x') ->
+    RelG q cur x h -> RelG (with_bguard q b) cur x' h.
+  Proof.
+    intros Hfb Hbf Hloc Hb [G1 G2 G3 G4 G5 G6 G7]. constructor; simpl; try assumption.
+    - intros E j ag' Hn Hc. destruct (Hfb j ag' Hn) as (ag & Hn0 & Hf). rewrite (below_eq x x' ag ag') by assumption. eapply G1; eassumption.
+    - intros E i ag' Hc Hn. destruct (Hfb i ag' Hn) as (ag & Hn0 & Hf). rewrite (below_eq x x' ag ag') by assumption. eapply G2; eassumption.
+    - intros E i j ag' Hc Hlt Hn. destruct (Hfb j ag' Hn) as (ag & Hn0 & Hf). rewrite (below_eq x x' ag ag') by assumption. eapply G3; eassumption.
+    - intros E i ag' Hc Hn. destruct (Hfb i ag' Hn) as (ag & Hn0 & Hf). rewrite (below_eq x x' ag ag') by assumption. eapply G4; eassumption.
+    - intros j ag' c Hn Hl Hbl Hm. destruct (Hfb j ag' Hn) as (ag & Hn0 & Hf). rewrite (below_eq x x' ag ag') in Hbl by assumption.
+      rewrite Hloc in Hl. eapply G5; eassumption.
+  Qed.
+
+  Lemma RelG_same q cur x x' h :
+    fback x x' -> best x' = best x -> loc x' = loc x -> RelG q cur x h -> RelG q cur x' h.
+  Proof.
+    intros Hfb Hb Hl HG. rewrite <- (with_bguard_id q). eapply RelG_frame; try eassumption.
+    - rewrite Hb. reflexivity.
+    - intros E. eapply best_ok_eq; [exact Hb|]. eapply r_best; eassumption.
+  Qed.
+
+  Lemma RelG_ext q cur x x' h :
+    pop x' = pop x -> best x' = best x -> loc x' = loc x -> RelG q cur x h -> RelG q cur x' h.
+  Proof. intros Hp. apply RelG_same. apply fback_refl. assumption. Qed.
+
+  Lemma norm_sound a cur x h : RG a cur x h -> RG (norm a) cur x h.
+  Proof.
+    unfold norm. destruct (is_feas (f_best (fst a))) eqn:E; [|auto].
+    intros [HF HR]. split; [exact HF|]. simpl.
+    destruct HR as [G1 G2 G3 G4 G5 G6 G7]. constructor; simpl; try assumption.
+    intros _. left. destruct HF as [_ _ F3 _ _ _ _ _]. destruct (f_best (fst a)); try discriminate. exact F3.
+  Qed.
+
+  (* the conclusion of a relation with no fact *)
+  Lemma RelG_top q cur x h :
+    ge_done q = false -> ge_cur q = false -> ge_todo q = false -> lt_cb q = false -> locrel q = LNone ->
+    (bguard q = true -> best_ok x) -> Forall ev_ok2 h -> RelG q cur x h.
+  Proof.
+    intros E1 E2 E3 E4 E5 Hb He. constructor; try assumption; try (intros E; congruence).
+    intros j ag c _ _ _. rewrite E5. intros [].
+  Qed.
+
+  (* ---------------------------------------------------------------- writes of fitnesses *)
+  Lemma klt_asym a b : klt a b = true -> klt b a = false.
+  Proof. unfold klt. lia. Qed.
+  Lemma klt_nb_trans a b c : klt a b = false -> klt c b = true -> klt a c = false.
+  Proof. unfold klt. lia. Qed.
+
+  (* r.fit := anything *)
+  Lemma fit_written_sound r cur ag' x x' q h :
+    setr r cur ag' x = Some x' -> RelG q cur x h -> RelG (fit_written r q) cur x' h.
+  Proof.
+    intros Hs HG. pose proof Hs as Hw. apply setr_written in Hw.
+    destruct Hw as [-> -> | -> -> | i l -> -> Hu -> | i l Hsl Hi Hu ->].
+    - apply RelG_top; try reflexivity; [simpl; discriminate | eapply r_evs; eassumption].
+    - simpl. eapply RelG_ext; [| | |exact HG]; reflexivity.
+    - simpl. eapply RelG_ext; [| | |exact HG]; reflexivity.
+    - destruct r; try discriminate; simpl in Hi.
+      + subst cur. destruct HG as [G1 G2 G3 G4 G5 G6 G7].
+        constructor; simpl; try assumption; try (intros; discriminate).
+        * intros E j ag Hn Hc. specialize (Hc i eq_refl).
+          rewrite (upd_nth_other _ _ _ _ _ Hu) in Hn by lia. eapply G1; try eassumption. intros i0 Hi0. injection Hi0 as <-. exact Hc.
+        * intros E i0 j ag Hc Hlt Hn. injection Hc as <-.
+          rewrite (upd_nth_other _ _ _ _ _ Hu) in Hn by lia. eapply G3; try eassumption. reflexivity.
+        * intros j ag c Hn Hl Hb Hm.
+          assert (Hne : j <> i) by (destruct (locrel q); simpl in Hm; congruence).
+          rewrite (upd_nth_other _ _ _ _ _ Hu) in Hn by exact Hne.
+          eapply G5; try eassumption. destruct (locrel q); simpl in Hm; try exact I; assumption.
+      + apply RelG_top; try reflexivity; [|eapply r_evs; eassumption]. simpl. intros E. eapply r_best in HG; eassumption.
+      + apply RelG_top; try reflexivity; [|eapply r_evs; eassumption]. simpl. intros E. eapply r_best in HG; eassumption.
+  Qed.
+
+  (* a slot is overwritten by an agent that is not below the best agent *)
+  Lemma RelG_slot_nb q cur x h k ag' l :
+    upd k ag' (pop x) = Some l -> below x ag' = false -> RelG q cur x h ->
+    RelG {| ge_done := ge_done q; ge_cur := ge_cur q; ge_todo := ge_todo q; lt_cb := false; locrel := locrel q; bguard := bguard q |}
+         cur (with_pop x l) h.
+  Proof.
+    intros Hu Hnb [G1 G2 G3 G4 G5 G6 G7]. constructor; simpl; try assumption; try (intros; discriminate).
+    - intros E j ag Hn Hc. destruct (nth_error_upd_cases _ _ _ _ _ _ Hu Hn) as [[-> ->]|[Hne Hn']]; [exact Hnb|]. eapply G1; eassumption.
+    - intros E i ag Hc Hn. destruct (nth_error_upd_cases _ _ _ _ _ _ Hu Hn) as [[-> ->]|[Hne Hn']]; [exact Hnb|]. eapply G2; eassumption.
+    - intros E i j ag Hc Hlt Hn. destruct (nth_error_upd_cases _ _ _ _ _ _ Hu Hn) as [[-> ->]|[Hne Hn']]; [exact Hnb|]. eapply G3; eassumption.
+    - intros j ag c Hn Hl Hb Hm. destruct (nth_error_upd_cases _ _ _ _ _ _ Hu Hn) as [[-> ->]|[Hne Hn']].
+      + change (below x ag' = true) in Hb. congruence.
+      + eapply G5; eassumption.
+  Qed.
+
+  Lemma RelG_cur_nb q x h k ag' l :
+    upd k ag' (pop x) = Some l -> below x ag' = false -> RelG q (Some k) x h ->
+    RelG {| ge_done := ge_done q; ge_cur := true; ge_todo := ge_todo q; lt_cb := false; locrel := up_loc (locrel q); bguard := bguard q |}
+         (Some k) (with_pop x l) h.
+  Proof.
+    intros Hu Hnb [G1 G2 G3 G4 G5 G6 G7]. constructor; simpl; try assumption; try (intros; discriminate).
+    - intros E j ag Hn Hc. destruct (nth_error_upd_cases _ _ _ _ _ _ Hu Hn) as [[-> ->]|[Hne Hn']]; [exact Hnb|]. eapply G1; eassumption.
+    - intros E i ag Hc Hn. injection Hc as <-. rewrite (upd_nth_same _ _ _ _ Hu) in Hn. injection Hn as <-. exact Hnb.
+    - intros E i j ag Hc Hlt Hn. destruct (nth_error_upd_cases _ _ _ _ _ _ Hu Hn) as [[-> ->]|[Hne Hn']]; [exact Hnb|]. eapply G3; eassumption.
+    - intros j ag c Hn Hl Hb Hm. destruct (nth_error_upd_cases _ _ _ _ _ _ Hu Hn) as [[-> ->]|[Hne Hn']].
+      + change (below x ag' = true) in Hb. congruence.
+      + eapply G5; try eassumption. destruct (locrel q); simpl in Hm; try exact I; try contradiction. congruence.
+  Qed.
+
+  (* r.fit := best.fit *)
+  Lemma fit_from_best_sound d cur ag' x x' q h :
+    setr d cur ag' x = Some x' -> d <> Best -> afit ag' = afit (best x) ->
+    RelG q cur x h -> RelG (fit_from_best d q) cur x' h.
+  Proof.
+    intros Hs Hd Hf HG. pose proof Hs as Hw. apply setr_written in Hw.
+    assert (Hnb : below x ag' = false) by (unfold below; rewrite Hf; apply klt_irrefl).
+    destruct Hw as [-> -> | -> -> | i l -> -> Hu -> | i l Hsl Hi Hu ->].
+    - congruence.
+    - simpl. eapply RelG_ext; [| | |exact HG]; reflexivity.
+    - simpl. eapply RelG_ext; [| | |exact HG]; reflexivity.
+    - destruct d; try discriminate; simpl in Hi.
+      + subst cur. simpl. eapply RelG_cur_nb; eassumption.
+      + simpl. eapply RelG_slot_nb; eassumption.
+      + simpl. eapply RelG_slot_nb; eassumption.
+  Qed.
+
+  (* best.fit := cur.fit under cur.fit < best.fit, the loop slot keeping its fitness or taking the old best fitness *)
+  Lemma best_lowered_sound q i x x' h ag :
+    nth_error (pop x) i = Some ag -> below x ag = true ->
+    afit (best x') = afit ag -> loc x' = loc x ->
+    (forall j b', nth_error (pop x') j = Some b' ->
+       exists b, nth_error (pop x) j = Some b /\ (afit b' = afit b \/ (j = i /\ afit b' = afit (best x)))) ->
+    RelG q (Some i) x h -> RelG (best_lowered q) (Some i) x' h.
+  Proof.
+    intros Hag Hlt Hbf Hloc Hpop [G1 G2 G3 G4 G5 G6 G7].
+    assert (Hkey : forall j b' b, nth_error (pop x) j = Some b -> (afit b' = afit b \/ (j = i /\ afit b' = afit (best x))) ->
+                     (below x b = false \/ j = i) -> below x' b' = false).
+    { intros j b' b Hb [E|[-> E]] Hc; unfold below in *; rewrite Hbf, E.
+      - destruct Hc as [Hc| ->].
+        + eapply klt_nb_trans; eassumption.
+        + rewrite Hag in Hb. injection Hb as <-. apply klt_irrefl.
+      - apply klt_asym. exact Hlt. }
+    constructor; simpl; try assumption; try (intros; discriminate).
+    - intros E j b' Hn Hc. destruct (Hpop j b' Hn) as (b & Hb & Hcase). eapply Hkey; try eassumption. left. eapply G1; eassumption.
+    - intros _ i0 b' Hc Hn. injection Hc as <-. destruct (Hpop i b' Hn) as (b & Hb & Hcase). eapply Hkey; try eassumption. right. reflexivity.
+    - intros E i0 j b' Hc Hl Hn. destruct (Hpop j b' Hn) as (b & Hb & Hcase). eapply Hkey; try eassumption. left. eapply G3; eassumption.
+    - intros j b' c Hn Hl Hb Hm. destruct (Hpop j b' Hn) as (b & Hb0 & Hcase). rewrite Hloc in Hl.
+      destruct (Nat.eq_dec j i) as [->|Hne].
+      + rewrite (Hkey i b' b Hb0 Hcase (or_intror eq_refl)) in Hb. discriminate.
+      + destruct Hcase as [E|[-> _]]; [|congruence].
+        assert (Hb1 : below x b = true).
+        { unfold below in *. rewrite Hbf, E in Hb. eapply klt_trans; eassumption. }
+        eapply G5; try eassumption. destruct (locrel q); simpl in Hm; try exact I; try contradiction. congruence.
+  Qed.
+
+  (* ---------------------------------------------------------------- the atoms: fitness facts *)
+  Lemma RelG_poswrite r cur ag ag' x x1 x' q h :
+    getr r cur x = Some ag -> setr r cur ag' x = Some x1 -> afit ag' = afit ag ->
+    pop x' = pop x1 -> best x' = best x1 -> loc x' = loc x1 ->
+    RelG q cur x h -> RelG (if is_best r then with_bguard q false else q) cur x' h.
+  Proof.
+    intros Hg Hs Hf Hp Hb Hl HG. destruct (setr_fback _ _ _ _ _ _ Hg Hs Hf) as (Hfb & Hbf & Hloc & Hbest).
+    assert (Hfb' : fback x x') by (intros j b Hn; rewrite Hp in Hn; apply Hfb; exact Hn).
+    destruct (is_best r) eqn:Eb.
+    - eapply RelG_frame; try eassumption; congruence.
+    - eapply RelG_same; try eassumption; [|congruence]. rewrite Hb. apply Hbest. intros ->. discriminate.
+  Qed.
+
+  Lemma sort_sound q cur x h : RelG q cur x h ->
+    RelG (let g := ge_done q && ge_cur q && ge_todo q in
+          {| ge_done := g; ge_cur := g; ge_todo := g; lt_cb := false; locrel := LNone; bguard := bguard q |})
+         cur (with_pop x (sort_fit (pop x))) h.
+  Proof.
+    intros [G1 G2 G3 G4 G5 G6 G7].
+    assert (Hall : ge_done q && ge_cur q && ge_todo q = true -> forall j ag, nth_error (sort_fit (pop x)) j = Some ag -> below x ag = false).
+    { intros E j ag Hn. apply andb_true_iff in E as [E E3]. apply andb_true_iff in E as [E1 E2].
+      apply nth_error_In, sort_fit_in, In_nth_error in Hn as [k Hk].
+      destruct cur as [i|].
+      - destruct (lt_eq_lt_dec k i) as [[Hlt| ->]|Hgt].
+        + eapply G1; try eassumption. intros i0 Hi0. injection Hi0 as <-. exact Hlt.
+        + eapply G2; try eassumption. reflexivity.
+        + eapply G3; try eassumption. reflexivity.
+      - eapply G1; try eassumption. intros i0 Hi0. discriminate. }
+    constructor; simpl; try assumption; try (intros; discriminate).
+    - intros E j ag Hn _. eapply Hall; eassumption.
+    - intros E i ag _ Hn. eapply Hall; eassumption.
+    - intros E i j ag _ _ Hn. eapply Hall; eassumption.
+    - intros j ag c _ _ _ [].
+  Qed.
+
+  Lemma locfrompos_sound a q i x h ag lc :
+    FG a (Some i) x h -> RelG q (Some i) x h -> nth_error (pop x) i = Some ag -> upd i (apos ag) (loc x) = Some lc ->
+    RelG {| ge_done := ge_done q; ge_cur := ge_cur q; ge_todo := ge_todo q; lt_cb := lt_cb q;
+            locrel := if is_feas (f_cur a) then up_loc (locrel q) else down_loc (locrel q); bguard := bguard q |}
+         (Some i) (with_loc x lc) h.
+  Proof.
+    intros HF [G1 G2 G3 G4 G5 G6 G7] Hag Hu. constructor; simpl; try assumption.
+    intros j b c Hn Hl Hb Hm. destruct (Nat.eq_dec j i) as [->|Hne].
+    - rewrite (upd_nth_same _ _ _ _ Hu) in Hl. injection Hl as <-.
+      destruct (is_feas (f_cur a)) eqn:Ef.
+      + pose proof (g_cur _ _ _ _ _ _ _ HF i ag eq_refl Hag) as Hlv.
+        destruct (f_cur a); try discriminate. exact Hlv.
+      + destruct (locrel q); simpl in Hm; try contradiction; congruence.
+    - rewrite (upd_nth_other _ _ _ _ _ Hu) in Hl by exact Hne.
+      eapply G5; try eassumption.
+      destruct (is_feas (f_cur a)); destruct (locrel q); simpl in Hm; try exact I; try contradiction; congruence.
+  Qed.
+
+  Ltac inv_ret H := unfold ret in H; injection H as <- <- <-.
+
+  Lemma ev_eval_ok c v : Forall ev_ok2 [EvEval c v].
+  Proof. constructor; [exact I|constructor]. Qed.
+
+  Lemma rel_atom_sound s a q cur o x h x' evs o' :
+    is_atom s = true -> FG a cur x h -> RelG q cur x h ->
+    ((s = Hook \/ s = Dump) -> bguard q = true) ->
+    xexec_atom cur s o x = Some (x', evs, o') -> RelG (rel_atom s a q) cur x' (h ++ evs).
+  Proof.
+    intros Hat HF HG Hhd Hex.
+    destruct s; simpl in Hat; try discriminate; simpl in Hex; simpl rel_atom.
+    - (* Skip *) inv_ret Hex. apply RelG_nil; assumption.
+    - (* Havoc *)
+      destruct o as [|[c|?|?|?] o1]; try discriminate.
+      destruct (getr r cur x) as [ag|] eqn:Eg; [|discriminate].
+      destruct (okc (apos ag) c) eqn:Eok; simpl in Hex; [|discriminate].
+      destruct m; (destruct (setr r cur _ x) as [x1|] eqn:Es; [|discriminate]); inv_ret Hex; apply RelG_nil;
+        (eapply RelG_poswrite; [exact Eg|exact Es| | | | |exact HG]; reflexivity).
+    - (* Clip *)
+      destruct (getr r cur x) as [ag|] eqn:Eg; [|discriminate].
+      destruct (setr r cur _ x) as [x1|] eqn:Es; [|discriminate]. inv_ret Hex. apply RelG_nil.
+      eapply RelG_poswrite; [exact Eg|exact Es| | | | |exact HG]; reflexivity.
+    - (* ClipAll *)
+      inv_ret Hex. apply RelG_nil. eapply RelG_same; [| | |exact HG]; try reflexivity.
+      intros j b Hn. simpl in Hn. rewrite nth_error_map in Hn. destruct (nth_error (pop x) j) as [ag|] eqn:En; [|discriminate].
+      injection Hn as <-. exists ag. split; reflexivity.
+    - (* Eval *)
+      destruct (getr r cur x) as [ag|] eqn:Eg; [|discriminate].
+      destruct (setr r cur _ x) as [x1|] eqn:Es; [|discriminate]. injection Hex as <- <- <-.
+      apply RelG_events; [|apply ev_eval_ok]. eapply fit_written_sound; eassumption.
+    - (* EvalTmp *)
+      destruct (getr r cur x) as [ag|] eqn:Eg; [|discriminate]. injection Hex as <- <- <-.
+      apply RelG_events; [|apply ev_eval_ok]. eapply RelG_ext; [| | |exact HG]; reflexivity.
+    - (* SetFitTmp *)
+      destruct (getr r cur x) as [ag|] eqn:Eg; [|discriminate].
+      destruct (setr r cur _ x) as [x1|] eqn:Es; [|discriminate]. inv_ret Hex. apply RelG_nil.
+      eapply fit_written_sound; eassumption.
+    - (* CopyPos *)
+      destruct (getr d cur x) as [ag|] eqn:Eg; [|discriminate].
+      destruct (getr s cur x) as [bg|] eqn:Eg2; [|discriminate].
+      destruct (setr d cur _ x) as [x1|] eqn:Es; [|discriminate]. inv_ret Hex. apply RelG_nil.
+      eapply RelG_poswrite; [exact Eg|exact Es| | | | |exact HG]; reflexivity.
+    - (* CopyFit *)
+      destruct (getr d cur x) as [ag|] eqn:Eg; [|discriminate].
+      destruct (getr s cur x) as [bg|] eqn:Eg2; [|discriminate].
+      destruct (setr d cur _ x) as [x1|] eqn:Es; [|discriminate]. inv_ret Hex. apply RelG_nil.
+      destruct (is_best d) eqn:Ed.
+      + destruct d; try discriminate.
+        destruct (is_cur s && lt_cb q) eqn:E; [|eapply (fit_written_sound Best); eassumption].
+        apply andb_true_iff in E as [Ec Elt]. destruct s; try discriminate.
+        simpl in Eg2, Es. destruct cur as [i|]; [|discriminate]. injection Es as <-.
+        eapply best_lowered_sound with (ag := bg); try eassumption; try reflexivity.
+        * eapply r_lt; try eassumption. reflexivity.
+        * intros j b' Hn. exists b'. split; [exact Hn|left; reflexivity].
+      + destruct (is_best s) eqn:Es0.
+        * destruct s; try discriminate. simpl in Eg2. injection Eg2 as <-.
+          eapply fit_from_best_sound; try eassumption; [|reflexivity]. intros ->. discriminate.
+        * eapply fit_written_sound; eassumption.
+    - (* LocFromPos *)
+      destruct cur as [i|]; [|discriminate].
+      destruct (nth_error (pop x) i) as [ag|] eqn:Eg; [|discriminate].
+      destruct (upd i (apos ag) (loc x)) as [lc|] eqn:Eu; [|discriminate]. inv_ret Hex. apply RelG_nil.
+      eapply locfrompos_sound; eassumption.
+    - (* BestPosFromLoc *)
+      destruct cur as [i|]; [|discriminate].
+      destruct (nth_error (loc x) i) as [c|] eqn:En; [|discriminate]. inv_ret Hex. apply RelG_nil.
+      eapply RelG_frame; [| | | |exact HG]; try reflexivity; [apply fback_refl; reflexivity|discriminate].
+    - (* SwapPos *)
+      destruct (getr a0 cur x) as [p|] eqn:Eg; [|discriminate].
+      destruct (getr b cur x) as [q0|] eqn:Eg2; [|discriminate].
+      destruct (setr a0 cur _ x) as [x1|] eqn:Es; [|discriminate].
+      destruct (getr b cur x1) as [q1|] eqn:Eg3; [|discriminate].
+      destruct (setr b cur _ x1) as [x2|] eqn:Es2; [|discriminate]. inv_ret Hex. apply RelG_nil.
+      destruct (setr_fback _ _ _ _ _ _ Eg Es eq_refl) as (Hfb1 & Hbf1 & Hl1 & Hb1).
+      destruct (setr_fback _ _ _ _ _ _ Eg3 Es2 eq_refl) as (Hfb2 & Hbf2 & Hl2 & Hb2).
+      pose proof (fback_trans _ _ _ Hfb1 Hfb2) as Hfb.
+      destruct (is_best a0 || is_best b) eqn:Eb.
+      + eapply RelG_frame; [exact Hfb|congruence|congruence|discriminate|exact HG].
+      + apply orb_false_iff in Eb as [Eb1 Eb2].
+        eapply RelG_same; [exact Hfb| |congruence|exact HG].
+        rewrite Hb2, Hb1; [reflexivity| |]; intros ->; discriminate.
+    - (* SwapFit *)
+      destruct (getr a0 cur x) as [p|] eqn:Eg; [|discriminate].
+      destruct (getr b cur x) as [q0|] eqn:Eg2; [|discriminate].
+      destruct (setr a0 cur _ x) as [x1|] eqn:Es; [|discriminate].
+      destruct (getr b cur x1) as [q1|] eqn:Eg3; [|discriminate].
+      destruct (setr b cur _ x1) as [x2|] eqn:Es2; [|discriminate]. inv_ret Hex. apply RelG_nil.
+      destruct ((is_cur a0 && is_best b || is_best a0 && is_cur b) && lt_cb q) eqn:E.
+      + apply andb_true_iff in E as [E Elt]. apply orb_true_iff in E as [E|E]; apply andb_true_iff in E as [E1 E2];
+          destruct a0; try discriminate; destruct b; try discriminate; simpl in Eg, Eg2, Es, Eg3, Es2;
+          (destruct cur as [i|]; [|discriminate]).
+        * (* cur.fit, best.fit swapped, cur first *)
+          injection Eg2 as <-. destruct (upd i _ (pop x)) as [l1|] eqn:Eu; [|discriminate]. injection Es as <-.
+          simpl in Eg3. injection Eg3 as <-. simpl in Es2. injection Es2 as <-.
+          eapply best_lowered_sound with (ag := p); try eassumption; try reflexivity.
+          -- eapply r_lt; try eassumption. reflexivity.
+          -- intros j b' Hn. simpl in Hn. destruct (nth_error_upd_cases _ _ _ _ _ _ Eu Hn) as [[-> ->]|[Hne Hn']].
+             ++ exists p. split; [exact Eg|right; split; reflexivity].
+             ++ exists b'. split; [exact Hn'|left; reflexivity].
+        * (* best first *)
+          injection Eg as <-. injection Es as <-. simpl in Eg3. rewrite Eg2 in Eg3. injection Eg3 as <-.
+          simpl in Es2. destruct (upd i _ (pop x)) as [l1|] eqn:Eu; [|discriminate]. injection Es2 as <-.
+          eapply best_lowered_sound with (ag := q0); try eassumption; try reflexivity.
+          -- eapply r_lt; try eassumption. reflexivity.
+          -- intros j b' Hn. simpl in Hn. destruct (nth_error_upd_cases _ _ _ _ _ _ Eu Hn) as [[-> ->]|[Hne Hn']].
+             ++ exists q0. split; [exact Eg2|right; split; reflexivity].
+             ++ exists b'. split; [exact Hn'|left; reflexivity].
+      + rewrite fit_written_comm. eapply fit_written_sound; [exact Es2|]. eapply fit_written_sound; [exact Es|exact HG].
+    - (* NewTrial *)
+      destruct (getr s cur x) as [ag|] eqn:Eg; [|discriminate]. inv_ret Hex. apply RelG_nil.
+      eapply RelG_ext; [| | |exact HG]; reflexivity.
+    - (* ShadowAll *)
+      inv_ret Hex. apply RelG_nil. eapply RelG_ext; [| | |exact HG]; reflexivity.
+    - (* Store *)
+      assert (Hgen : forall x1 ag, slotlike d = true -> getr s cur x = Some ag ->
+                setr d cur {| apos := apos ag; aid := next x; afit := afit ag |} x = Some x1 ->
+                RelG (if is_best s then fit_from_best d q else fit_written d q) cur (with_next x1 (S (next x))) h).
+      { intros x1 ag Hd Eg Es. eapply RelG_ext with (x := x1); try reflexivity.
+        destruct (is_best s) eqn:Es0.
+        - destruct s; try discriminate. simpl in Eg. injection Eg as <-.
+          eapply fit_from_best_sound; try eassumption; [|reflexivity]. intros ->. discriminate.
+        - eapply fit_written_sound; eassumption. }
+      destruct d; try discriminate;
+        (destruct (getr s cur x) as [ag|] eqn:Eg; [|discriminate];
+         destruct (setr _ cur _ x) as [x1|] eqn:Es; [|discriminate]; inv_ret Hex; apply RelG_nil;
+         eapply Hgen; [reflexivity|reflexivity|exact Es]).
+    - (* ChooseIdx *)
+      destruct o as [|[?|?|i|?] o1]; try discriminate.
+      destruct (Nat.ltb i (length (pop x))); [|discriminate]. inv_ret Hex. apply RelG_nil.
+      eapply RelG_ext; [| | |exact HG]; reflexivity.
+    - (* SortByFit *)
+      inv_ret Hex. apply RelG_nil. apply sort_sound. exact HG.
+    - (* Hook *)
+      injection Hex as <- <- <-. unfold hk. apply RelG_events; [exact HG|].
+      constructor; [|constructor]. simpl. eapply r_best; [exact HG|]. apply Hhd. left; reflexivity.
+    - (* Dump *)
+      injection Hex as <- <- <-. apply RelG_events; [exact HG|].
+      constructor; [|constructor]. simpl. eapply r_best; [exact HG|]. apply Hhd. right; reflexivity.
+    - (* Draw *)
+      injection Hex as <- <- <-. apply RelG_events; [exact HG|]. constructor; [exact I|constructor].
+    - (* SetHyper *)
+      inv_ret Hex. apply RelG_nil. eapply RelG_ext; [| | |exact HG]; reflexivity.
+    - (* PosFromTree *)
+      destruct cur as [i|]; [|discriminate].
+      destruct (getr r (Some i) x) as [ag|] eqn:Eg; [|discriminate].
+      destruct (nth_error (tv x) i) as [c|] eqn:En; [|discriminate].
+      destruct (okc (apos ag) c) eqn:Eok; simpl in Hex; [|discriminate].
+      destruct (setr r (Some i) _ x) as [x1|] eqn:Es; [|discriminate]. inv_ret Hex. apply RelG_nil.
+      eapply RelG_poswrite; [exact Eg|exact Es| | | | |exact HG]; reflexivity.
+    - (* BestTreeCopy *)
+      destruct cur as [i|]; [|discriminate].
+      destruct (nth_error (tv x) i) as [c|] eqn:En; [|discriminate]. inv_ret Hex. apply RelG_nil.
+      eapply RelG_ext; [| | |exact HG]; reflexivity.
+    - (* TreeCopy *)
+      destruct o as [|[?|?|?|t] o1]; try discriminate.
+      destruct (forallb2 okc (tv x) t); [|discriminate]. inv_ret Hex. apply RelG_nil.
+      eapply RelG_ext; [| | |exact HG]; reflexivity.
+    - (* TreeSet *)
+      destruct o as [|[?|?|?|t] o1]; try discriminate.
+      destruct (forallb2 okc (tv x) t); [|discriminate]. inv_ret Hex. apply RelG_nil.
+      eapply RelG_ext; [| | |exact HG]; reflexivity.
+    - (* TreeCross *)
+      destruct o as [|[?|?|?|t] o1]; try discriminate.
+      destruct (forallb2 okc (tv x) t); [|discriminate]. inv_ret Hex. apply RelG_nil.
+      eapply RelG_ext; [| | |exact HG]; reflexivity.
+  Qed.
+
+  (* ---------------------------------------------------------------- the atoms: feasibility levels *)
+  Lemma fa2_sound l s a q a1 cur o x h x' evs o' :
+    is_atom s = true -> fa_atom l s a = (a1, []) -> FG a cur x h -> RelG q cur x h ->
+    (lt_cb q = true -> forall i, cur = Some i -> i < length (pop x)) ->
+    xexec_atom cur s o x = Some (x', evs, o') -> FG (a2_of s a q a1) cur x' (h ++ evs).
+  Proof.
+    intros Hat Hfa HF HG Hx Hex.
+    assert (Hbase : FG a1 cur x' (h ++ evs)) by (eapply (fa_atom_sound lbs ubs f INIT box_ok); eassumption).
+    destruct s; try exact Hbase; unfold a2_of.
+    - (* BestPosFromLoc *)
+      destruct (lt_cb q && match locrel q with LAll => true | _ => false end) eqn:E; [|exact Hbase].
+      apply andb_true_iff in E as [Elt El]. simpl in Hex.
+      destruct cur as [i|]; [|discriminate].
+      destruct (nth_error (loc x) i) as [c|] eqn:En; [|discriminate]. inv_ret Hex.
+      destruct Hbase as [B1 B2 B3 B4 B5 B6 B7 B8]. constructor; simpl; try assumption.
+      specialize (Hx Elt i eq_refl).
+      destruct (nth_error (pop x) i) as [ag|] eqn:Ea; [|apply nth_error_None in Ea; lia].
+      eapply (r_loc _ _ _ _ HG i ag c Ea En).
+      + eapply r_lt; try eassumption. reflexivity.
+      + destruct (locrel q); try discriminate. exact I.
+    - (* SwapPos *)
+      destruct (is_cur a0 && is_best b || is_best a0 && is_cur b) eqn:E; [|exact Hbase].
+      simpl in Hex.
+      destruct (getr a0 cur x) as [p|] eqn:Eg; [|discriminate].
+      destruct (getr b cur x) as [q0|] eqn:Eg2; [|discriminate].
+      destruct (setr a0 cur _ x) as [x1|] eqn:Es; [|discriminate].
+      destruct (getr b cur x1) as [q1|] eqn:Eg3; [|discriminate].
+      destruct (setr b cur _ x1) as [x2|] eqn:Es2; [|discriminate]. inv_ret Hex. apply FG_nil.
+      pose proof (FG_read lbs ubs f INIT _ _ _ _ _ _ HF Eg) as Hp.
+      pose proof (FG_read lbs ubs f INIT _ _ _ _ _ _ HF Eg2) as Hq.
+      apply orb_true_iff in E as [E|E]; apply andb_true_iff in E as [E1 E2];
+        destruct a0; try discriminate; destruct b; try discriminate.
+      + eapply (FG_write lbs ubs f INIT); [|exact Es2|exact Hp].
+        eapply (FG_write lbs ubs f INIT); [exact HF|exact Es|exact Hq].
+      + change (FG (wr Cur (f_best a) (wr Best (f_cur a) a)) cur x2 h).
+        eapply (FG_write lbs ubs f INIT); [|exact Es2|exact Hp].
+        eapply (FG_write lbs ubs f INIT); [exact HF|exact Es|exact Hq].
+  Qed.
+
+  (* the invariant of the analysis: [RG], and the loop slot exists whenever it is known to be below the best agent *)
+  Definition RGx (a : ra) (cur : option nat) (x : st) (h : list event) : Prop :=
+    RG a cur x h /\ (lt_cb (snd a) = true -> forall i, cur = Some i -> i < length (pop x)).
+
+  Lemma hk_len (x : st) : length (pop (hk x)) = length (pop x).
+  Proof. reflexivity. Qed.
+
+  Lemma ra_atom_sound : forall l s a a', is_atom s = true -> ra_atom l s a = (a', []) ->
+    forall cur o x h x' evs o', RGx a cur x h -> xexec_atom cur s o x = Some (x', evs, o') -> RGx a' cur x' (h ++ evs).
+  Proof.
+    intros l s [a q] a' Hat Hra cur o x h x' evs o' [[HF HR] Hx] Hex. simpl in HF, HR, Hx.
+    apply ra_atom_inv in Hra as (a1 & Hfa & -> & Hhd). split.
+    - apply norm_sound. split; simpl.
+      + eapply fa2_sound; eassumption.
+      + eapply rel_atom_sound; eassumption.
+    - rewrite norm_lt. simpl. intros E i Hc. apply rel_atom_lt in E.
+      rewrite (Counts.exec_atom_len lbs ubs f hk okc hk_len _ _ _ _ _ _ _ Hex). apply Hx; assumption.
+  Qed.
+
+  Lemma RGx_mono a b cur x h : ra_leb a b = true -> RGx a cur x h -> RGx b cur x h.
+  Proof.
+    intros Hle [HR Hx]. split; [eapply RG_mono; eassumption|].
+    intros E. apply Hx. unfold ra_leb in Hle. apply andb_true_iff in Hle as [_ Hle]. apply rel_leb_spec in Hle.
+    destruct Hle as (_ & _ & _ & H4 & _). destruct (lt_cb (snd b)), (lt_cb (snd a)); try reflexivity; discriminate.
+  Qed.
+
+  Lemma RGx_of_RG a x h : RG a None x h -> RGx a None x h.
+  Proof. intros H. split; [exact H|]. intros _ i Hi. discriminate. Qed.
+
+  (* ---------------------------------------------------------------- tests, binding of the loop slot *)
+  Lemma ra_assume_sound c b a cur o x h o' :
+    evalc c cur o x = Some (b, o') -> RGx a cur x h -> RGx (ra_assume c b a) cur x h.
+  Proof.
+    intros Hev HG. destruct a as [a q]. unfold ra_assume.
+    destruct c; try exact HG. destruct a0; try exact HG. destruct b0; try exact HG.
+    simpl in Hev. destruct cur as [i|]; [|discriminate].
+    destruct (nth_error (pop x) i) as [ag|] eqn:Ea; [|discriminate]. injection Hev as <- <-.
+    destruct HG as [[HF HR] Hx]. simpl in HF, HR, Hx.
+    destruct (klt (afit ag) (afit (best x))) eqn:Eb.
+    - split; [split; [exact HF|]|]; simpl.
+      + destruct HR as [G1 G2 G3 G4 G5 G6 G7]. constructor; simpl; try assumption.
+        intros _ i0 ag0 Hc Hn. injection Hc as <-. rewrite Ea in Hn. injection Hn as <-. exact Eb.
+      + intros _ i0 Hc. injection Hc as <-. apply nth_error_Some. congruence.
+    - split; [split; [exact HF|]|]; simpl; [|exact Hx].
+      destruct HR as [G1 G2 G3 G4 G5 G6 G7]. constructor; simpl; try assumption.
+      + intros _ i0 ag0 Hc Hn. injection Hc as <-. rewrite Ea in Hn. injection Hn as <-. exact Eb.
+      + intros j ag0 c Hn Hl Hb Hm. destruct (Nat.eq_dec j i) as [->|Hne].
+        * rewrite Ea in Hn. injection Hn as <-. unfold below in Hb. congruence.
+        * eapply G5; try eassumption. destruct (locrel q); simpl in Hm; try exact I; try contradiction. congruence.
+  Qed.
+
+  Lemma ra_enter_sound a i x h : RGx a None x h -> RGx (ra_enter a) (Some i) x h.
+  Proof.
+    destruct a as [a q]. intros [[HF HR] _]. simpl in HF, HR.
+    split; [split|]; simpl; [apply fa_enter_sound; exact HF| |discriminate].
+    destruct HR as [G1 G2 G3 G4 G5 G6 G7]. constructor; simpl; try assumption; try (intros; discriminate).
+    - intros E j ag Hn _. eapply G1; try eassumption. intros i0 Hi0. discriminate.
+    - intros E i0 ag _ Hn. eapply G1; try eassumption. intros i1 Hi1. discriminate.
+    - intros E i0 j ag _ _ Hn. eapply G1; try eassumption. intros i1 Hi1. discriminate.
+    - intros j ag c Hn Hl Hb Hm. eapply G5; try eassumption. destruct (locrel q); simpl in Hm; try contradiction; exact I.
+  Qed.
+
+  Lemma exit_loc_sound q i x h : RelG q (Some i) x h -> exit_loc q = LAll ->
+    forall j ag c, nth_error (pop x) j = Some ag -> nth_error (loc x) j = Some c -> below x ag = true -> feasible lbs ubs c = true.
+  Proof.
+    intros HG He j ag c Hn Hl Hb. eapply (r_loc _ _ _ _ HG); try eassumption.
+    unfold exit_loc in He. destruct (locrel q) eqn:El; try discriminate; [|exact I].
+    destruct (ge_cur q) eqn:Ec; [|discriminate]. intros Hc. injection Hc as <-.
+    rewrite (r_cur _ _ _ _ HG Ec i ag eq_refl Hn) in Hb. discriminate.
+  Qed.
+
+  Lemma ra_exit_sound a i x h : RGx a (Some i) x h -> RGx (ra_exit a) None x h.
+  Proof.
+    destruct a as [a q]. intros [[HF HR] _]. simpl in HF, HR.
+    split; [split|]; simpl; [apply (fa_exit_sound lbs ubs f INIT) with (i := i); exact HF| |intros _ i0 Hc; discriminate].
+    constructor; simpl; try (intros; discriminate).
+    - intros E j ag Hn _. apply andb_true_iff in E as [E E3]. apply andb_true_iff in E as [E1 E2].
+      destruct (lt_eq_lt_dec j i) as [[Hlt| ->]|Hgt].
+      + eapply (r_done _ _ _ _ HR); try eassumption. intros i0 Hi0. injection Hi0 as <-. exact Hlt.
+      + eapply (r_cur _ _ _ _ HR); try eassumption. reflexivity.
+      + eapply (r_todo _ _ _ _ HR); try eassumption. reflexivity.
+    - intros j ag c Hn Hl Hb Hm. destruct (exit_loc q) eqn:Ee; try contradiction.
+      + exfalso. unfold exit_loc in Ee. destruct (locrel q); try discriminate. destruct (ge_cur q); discriminate.
+      + eapply exit_loc_sound; eassumption.
+    - intros E. eapply r_best; eassumption.
+    - eapply r_evs; eassumption.
+  Qed.
+
+  (* ---------------------------------------------------------------- r.position = <arithmetic>; r.check_limits() *)
+  Lemma havoc_clip_spec t r : havoc_clip t = Some r -> exists m, t = Seq (Havoc m r) (Clip r) /\ r <> Best.
+  Proof.
+    destruct t; try discriminate. simpl. destruct t1; try discriminate. destruct t2; try discriminate.
+    destruct (ref_eqb r0 r1 && negb (is_best r0)) eqn:E; [|discriminate]. intros H. injection H as <-.
+    apply andb_true_iff in E as [E1 E2]. apply ref_eqb_eq in E1. subst r1. exists m. split; [reflexivity|].
+    intros ->. discriminate.
+  Qed.
+
+  (* the two writes amount to one write of a clipped position *)
+  Lemma havoc_clip_sem m r cur o x x' evs o' :
+    xexec cur (Seq (Havoc m r) (Clip r)) o x = Some (x', evs, o') ->
+    exists ag c idn x3,
+      getr r cur x = Some ag /\ okc (apos ag) c = true /\
+      setr r cur (clipa lbs ubs {| apos := c; aid := idn; afit := afit ag |}) x = Some x3 /\
+      (x' = x3 \/ exists n, x' = with_next x3 n) /\ evs = [].
+  Proof.
+    intros Hex.
+    change (bind (xexec_atom cur (Havoc m r) o x) (fun x1 o1 => xexec_atom cur (Clip r) o1 x1) = Some (x', evs, o')) in Hex.
+    apply bind_some in Hex as (y & e1 & o1 & e2 & H1 & H2 & ->).
+    simpl in H1. destruct o as [|[c|?|?|?] o0]; try discriminate.
+    destruct (getr r cur x) as [ag|] eqn:Eg; [|discriminate].
+    destruct (okc (apos ag) c) eqn:Eok; simpl in H1; [|discriminate].
+    destruct m.
+    - destruct (setr r cur _ x) as [x1|] eqn:Es; [|discriminate]. inv_ret H1.
+      simpl in H2. rewrite BestMinSound.getr_with_next, (BestMinSound.getr_setr_same _ _ _ _ _ Es) in H2.
+      destruct (setr r cur _ (with_next x1 _)) as [x2|] eqn:Es2; [|discriminate]. inv_ret H2.
+      destruct (BestMinSound.setr_setr _ _ _ _ _ _ _ _ Es Es2) as (x3 & Hs3 & ->).
+      exists ag, c, (next x), x3. repeat split; try assumption. right. eexists; reflexivity.
+    - destruct (setr r cur _ x) as [x1|] eqn:Es; [|discriminate]. inv_ret H1.
+      simpl in H2. rewrite (BestMinSound.getr_setr_same _ _ _ _ _ Es) in H2.
+      destruct (setr r cur _ x1) as [x2|] eqn:Es2; [|discriminate]. inv_ret H2.
+      pose proof (BestMinSound.setr_setr0 _ _ _ _ _ _ _ Es Es2) as Hs3.
+      exists ag, c, (aid ag), x2. repeat split; try assumption. left. reflexivity.
+  Qed.
+
+  Lemma ra_special0_sound : forall l incur s a a', ra_special0 l incur s a = Some (a', []) ->
+    forall cur o x h x' evs o', (if incur then exists i, cur = Some i else cur = None) ->
+    RGx a cur x h -> xexec cur s o x = Some (x', evs, o') -> RGx a' cur x' (h ++ evs).
+  Proof.
+    intros l incur s a a' Hsp cur o x h x' evs o' _ [[HF HR] Hx] Hex.
+    unfold ra_special0 in Hsp. destruct (havoc_clip (strip s)) as [r|] eqn:Ehc; [|discriminate].
+    injection Hsp as <-. apply havoc_clip_spec in Ehc as (m & Est & Hr).
+    rewrite <- (exec_strip lbs ubs f hk n_iter okc), Est in Hex.
+    apply havoc_clip_sem in Hex as (ag & c & idn & x3 & Eg & Eok & Es & Hx' & ->).
+    assert (Hfeas : feasible lbs ubs (apos (clipa lbs ubs {| apos := c; aid := idn; afit := afit ag |})) = true).
+    { simpl. apply (clipc_feasible lbs ubs box_ok). eapply okc_wf; [exact Eok|].
+      eapply (lv_ok_wf lbs ubs f INIT). eapply (FG_read lbs ubs f INIT); eassumption. }
+    pose proof (FG_write lbs ubs f INIT _ _ _ _ _ _ _ Feas HF Es Hfeas) as HF3.
+    destruct (setr_fback _ _ _ _ _ _ Eg Es eq_refl) as (Hfb & _ & Hloc & Hbest).
+    pose proof (RelG_same _ _ _ _ _ Hfb (Hbest Hr) Hloc HR) as HR3.
+    destruct (setr_frame _ _ _ _ _ Es) as (_ & _ & Hlen & _).
+    rewrite app_nil_r. split.
+    - apply norm_sound. destruct Hx' as [->|[n ->]]; split; simpl; try assumption.
+      + apply FG_next. exact HF3.
+      + eapply RelG_ext; [| | |exact HR3]; reflexivity.
+    - rewrite norm_lt. simpl. intros E i Hc.
+      replace (length (pop x')) with (length (pop x)); [apply Hx; assumption|].
+      destruct Hx' as [->|[n ->]]; simpl; symmetry; exact Hlen.
+  Qed.
+
+  Theorem ra_sound0 : forall s l incur a a', ra_absint0 l incur s a = (a', []) ->
+    forall cur o x h x' evs o', (if incur then exists i, cur = Some i else cur = None) ->
+      RGx a cur x h -> xexec cur s o x = Some (x', evs, o') -> RGx a' cur x' (h ++ evs).
+  Proof.
+    intros s l incur a a' Habs cur o x h x' evs o' Hcur HG Hex.
+    eapply (absint_sound lbs ubs f hk n_iter okc ra ra_leb ra_join ra_atom ra_assume ra_enter ra_exit ra_special0 RGx);
+      try eassumption.
+    - apply ra_leb_refl.
+    - apply ra_leb_trans.
+    - apply ra_join_l.
+    - apply ra_join_r.
+    - intros; eapply RGx_mono; eassumption.
+    - intros; eapply ra_atom_sound; eassumption.
+    - intros; eapply ra_assume_sound; eassumption.
+    - intros; apply ra_enter_sound; assumption.
+    - intros; eapply ra_exit_sound; eassumption.
+    - intros; eapply ra_special0_sound; eassumption.
+  Qed.
+
+  (* ---------------------------------------------------------------- ForSlots: every slot is visited exactly once, in order *)
+  (* the invariant between two slots: slots below [i] have been visited, the others not yet *)
+  Record GI (J : ra) (i : nat) (x : st) (h : list event) : Prop := {
+    gi_fg : FG (fst J) None x h;
+    gi_done : ge_done (snd J) = true -> forall j ag, nth_error (pop x) j = Some ag -> j < i -> below x ag = false;
+    gi_todo : ge_todo (snd J) = true -> forall j ag, nth_error (pop x) j = Some ag -> i <= j -> below x ag = false;
+    gi_loc : locrel (snd J) = LAll -> forall j ag c, nth_error (pop x) j = Some ag -> nth_error (loc x) j = Some c ->
+             below x ag = true -> feasible lbs ubs c = true;
+    gi_best : bguard (snd J) = true -> best_ok x;
+    gi_evs : Forall ev_ok2 h
+  }.
+
+  Lemma GI_mono a b i x h : ra_leb a b = true -> GI a i x h -> GI b i x h.
+  Proof.
+    unfold ra_leb. rewrite andb_true_iff, rel_leb_spec. intros [Hf (H1 & H2 & H3 & H4 & H5 & H6)] [I1 I2 I3 I4 I5 I6].
+    constructor; try assumption.
+    - eapply (FG_mono lbs ubs f INIT); eassumption.
+    - intros E. apply I2. destruct (ge_done (snd b)), (ge_done (snd a)); try reflexivity; discriminate.
+    - intros E. apply I3. destruct (ge_todo (snd b)), (ge_todo (snd a)); try reflexivity; discriminate.
+    - intros E. apply I4. rewrite E in H5. destruct (locrel (snd a)); try discriminate. reflexivity.
+    - intros E. apply I5. destruct (bguard (snd b)), (bguard (snd a)); try reflexivity; discriminate.
+  Qed.
+
+  Lemma flat_loc_all l : flat_loc l = LAll -> l = LAll.
+  Proof. destruct l; simpl; intros H; try discriminate; reflexivity. Qed.
+
+  Lemma fs_start_sound a x h : RG a None x h -> GI (fs_start a) 0 x h.
+  Proof.
+    destruct a as [a q]. intros [HF HR]. simpl in HF, HR. constructor; simpl.
+    - exact HF.
+    - intros _ j ag _ Hlt. lia.
+    - intros E j ag Hn _. eapply (r_done _ _ _ _ HR); try eassumption. intros i0 Hi0. discriminate.
+    - intros E j ag c Hn Hl Hb. apply flat_loc_all in E. eapply (r_loc _ _ _ _ HR); try eassumption. rewrite E. exact I.
+    - intros E. eapply r_best; eassumption.
+    - eapply r_evs; eassumption.
+  Qed.
+
+  Lemma fs_enter_sound J i x h : GI J i x h -> RGx (fs_enter J) (Some i) x h.
+  Proof.
+    destruct J as [a q]. intros [I1 I2 I3 I4 I5 I6]. simpl in *.
+    split; [split|]; simpl; [apply fa_enter_sound; exact I1| |discriminate].
+    constructor; simpl; try assumption; try (intros; discriminate).
+    - intros E j ag Hn Hc. eapply I2; try eassumption. apply Hc. reflexivity.
+    - intros E i0 ag Hc Hn. injection Hc as <-. eapply I3; try eassumption. lia.
+    - intros E i0 j ag Hc Hlt Hn. injection Hc as <-. eapply I3; try eassumption. lia.
+    - intros j ag c Hn Hl Hb Hm. eapply I4; try eassumption. destruct (locrel q); simpl in Hm; try contradiction; reflexivity.
+  Qed.
+
+  Lemma fs_exit_sound j1 i x h : RGx j1 (Some i) x h -> GI (fs_exit j1) (S i) x h.
+  Proof.
+    destruct j1 as [a q]. intros [[HF HR] _]. simpl in HF, HR. constructor; simpl.
+    - apply (fa_exit_sound lbs ubs f INIT) with (i := i). exact HF.
+    - intros E j ag Hn Hlt. apply andb_true_iff in E as [E1 E2]. destruct (Nat.eq_dec j i) as [->|Hne].
+      + eapply (r_cur _ _ _ _ HR); try eassumption. reflexivity.
+      + eapply (r_done _ _ _ _ HR); try eassumption. intros i0 Hi0. injection Hi0 as <-. lia.
+    - intros E j ag Hn Hle. eapply (r_todo _ _ _ _ HR E i j ag eq_refl); [lia|exact Hn].
+    - intros E j ag c Hn Hl Hb. eapply exit_loc_sound; eassumption.
+    - intros E. eapply r_best; eassumption.
+    - eapply r_evs; eassumption.
+  Qed.
+
+  Lemma fs_finish_sound J x h : GI J (length (pop x)) x h -> RG (fs_finish J) None x h.
+  Proof.
+    destruct J as [a q]. intros [I1 I2 I3 I4 I5 I6]. simpl in *. split; simpl; [exact I1|].
+    constructor; simpl; try assumption; try (intros; discriminate).
+    - intros E j ag Hn _. eapply I2; try eassumption. apply nth_error_Some. congruence.
+    - intros j ag c Hn Hl Hb Hm. eapply I4; try eassumption. destruct (locrel q); simpl in Hm; try contradiction; reflexivity.
+  Qed.
+
+  Lemma exec_peel s : forall l cur o x, xexec cur (snd (peel l s)) o x = xexec cur s o x.
+  Proof. induction s; intros; try reflexivity. simpl. apply IHs. Qed.
+
+  Lemma exec_len_id s cur o x x' evs o' : xexec cur s o x = Some (x', evs, o') -> length (pop x') = length (pop x).
+  Proof. apply (Counts.exec_len lbs ubs f hk n_iter okc hk_len). Qed.
+
+  Lemma fs_loop J j1 l b :
+    ra_absint0 l true b (fs_enter J) = (j1, []) -> ra_leb (fs_exit j1) J = true ->
+    forall n i o x h x' evs o', GI J i x h ->
+      iter_slots i n (fun k => xexec (Some k) b) o x = Some (x', evs, o') ->
+      GI J (i + n) x' (h ++ evs) /\ length (pop x') = length (pop x).
+  Proof.
+    intros Habs Hst n. induction n as [|n IH]; intros i o x h x' evs o' HG H; simpl in H.
+    - unfold ret in H. injection H as <- <- <-. rewrite app_nil_r, Nat.add_0_r. auto.
+    - apply bind_some in H as (x1 & e1 & o1 & e2 & H1 & H2 & ->).
+      pose proof (exec_len_id _ _ _ _ _ _ _ H1) as Hl1.
+      assert (HG1 : GI J (S i) x1 (h ++ e1)).
+      { eapply GI_mono; [exact Hst|]. apply fs_exit_sound.
+        eapply ra_sound0; [exact Habs|exists i; reflexivity|apply fs_enter_sound; exact HG|exact H1]. }
+      rewrite app_assoc. replace (i + S n) with (S i + n) by lia.
+      destruct (IH _ _ _ _ _ _ _ HG1 H2) as [HG2 Hl2]. split; [exact HG2|congruence].
+  Qed.
+
+  Lemma fs_sound l b a J :
+    loop ra ra_leb ra_join l (fun j => let (j', al) := ra_absint0 l true b (fs_enter j) in (fs_exit j', al)) (fs_start a) = (J, []) ->
+    forall o x h x' evs o', RG a None x h -> xexec None (ForSlots b) o x = Some (x', evs, o') ->
+    RG (fs_finish J) None x' (h ++ evs).
+  Proof.
+    intros Hloop o x h x' evs o' HG Hex.
+    apply (loop_sound ra ra_leb ra_join ra_leb_refl ra_leb_trans ra_join_l) in Hloop as [Hle (j' & HF & Hst)].
+    destruct (ra_absint0 l true b (fs_enter J)) as [j1 al1] eqn:E1. injection HF as <- ->.
+    simpl in Hex.
+    destruct (fs_loop J j1 l b E1 Hst (length (pop x)) 0 o x h x' evs o') as [HG' Hlen']; [|exact Hex|].
+    - eapply GI_mono; [exact Hle|]. apply fs_start_sound. exact HG.
+    - simpl in HG'. rewrite <- Hlen' in HG'. apply fs_finish_sound. exact HG'.
+  Qed.
+
+  Lemma fs_finish_lt J : lt_cb (snd (fs_finish J)) = false.
+  Proof. destruct J; reflexivity. Qed.
+
+  Lemma ra_special_sound : forall l incur s a a', ra_special l incur s a = Some (a', []) ->
+    forall cur o x h x' evs o', (if incur then exists i, cur = Some i else cur = None) ->
+    RGx a cur x h -> xexec cur s o x = Some (x', evs, o') -> RGx a' cur x' (h ++ evs).
+  Proof.
+    intros l incur s a a' Hsp cur o x h x' evs o' Hcur HG Hex.
+    unfold ra_special in Hsp. pose proof (exec_peel s l cur o x) as Hp.
+    destruct (peel l s) as [l' s'] eqn:Epeel. simpl in Hp.
+    assert (Hdef : ra_special0 l incur s a = Some (a', []) -> RGx a' cur x' (h ++ evs)).
+    { intros H0. eapply ra_special0_sound; eassumption. }
+    destruct s'; try (apply Hdef; exact Hsp).
+    destruct incur; [discriminate|]. subst cur. injection Hsp as Hsp.
+    destruct (loop ra ra_leb ra_join l' _ (fs_start a)) as [J al] eqn:El. injection Hsp as <- ->.
+    rewrite <- Hp in Hex. split.
+    - eapply fs_sound; [exact El|exact (proj1 HG)|exact Hex].
+    - rewrite fs_finish_lt. discriminate.
+  Qed.
+
   (* ---- soundness of the analysis for every IR program *)
   Theorem ra_sound : forall s l a a', ra_absint l false s a = (a', []) ->
     forall o x h x' evs o', RG a None x h ->
       exec lbs ubs f hk n_iter okc None s o x = Some (x', evs, o') -> RG a' None x' (h ++ evs).
-  Proof. (* PROVE *) Abort.
+  Proof.
+    intros s l a a' Habs o x h x' evs o' HG Hex.
+    apply (proj1 (A := RG a' None x' (h ++ evs)) (B := lt_cb (snd a') = true -> forall i, None = Some i -> i < length (pop x'))).
+    change (RGx a' None x' (h ++ evs)).
+    eapply (absint_sound lbs ubs f hk n_iter okc ra ra_leb ra_join ra_atom ra_assume ra_enter ra_exit ra_special RGx)
+      with (incur := false) (cur := None); try eassumption; try reflexivity.
+    - apply ra_leb_refl.
+    - apply ra_leb_trans.
+    - apply ra_join_l.
+    - apply ra_join_r.
+    - intros; eapply RGx_mono; eassumption.
+    - intros; eapply ra_atom_sound; eassumption.
+    - intros; eapply ra_assume_sound; eassumption.
+    - intros; apply ra_enter_sound; assumption.
+    - intros; eapply ra_exit_sound; eassumption.
+    - intros; eapply ra_special_sound; eassumption.
+    - apply RGx_of_RG. exact HG.
+  Qed.
 
   (* ---- one task *)
   Definition restart_ok (x : st) : Prop :=
     forall lc, Forall (fun c => In c INIT /\ wf lbs c) lc -> start_ok (with_loc x lc).
+
+  (* what a state must satisfy for every later task to start well *)
+  Lemma restart_intro x :
+    (forall j ag, nth_error (pop x) j = Some ag -> feasible lbs ubs (apos ag) = true /\ below x ag = false) ->
+    best_ok x -> wf lbs (apos (tr x)) -> (forall j ag, nth_error (sh x) j = Some ag -> wf lbs (apos ag)) ->
+    restart_ok x.
+  Proof.
+    intros Hpop Hbest Htr Hsh lc Hlc. split; simpl.
+    - constructor; simpl.
+      + intros j ag Hn _. apply (Hpop j ag Hn).
+      + intros j ag Hc. discriminate.
+      + destruct Hbest as [Hb|(_ & Hb1 & Hb2)]; [left; exact Hb|right; split; assumption].
+      + exact Htr.
+      + intros j ag Hn _. eapply Hsh; eassumption.
+      + intros j ag Hc. discriminate.
+      + intros c Hc. right. rewrite Forall_forall in Hlc. apply Hlc. exact Hc.
+      + constructor.
+    - constructor; simpl; try (intros; discriminate).
+      + intros _ j ag Hn _. apply (Hpop j ag Hn).
+      + intros j ag c Hn _ Hb _. change (below x ag = true) in Hb. rewrite (proj2 (Hpop j ag Hn)) in Hb. discriminate.
+      + intros _. exact Hbest.
+      + constructor.
+  Qed.
 
   Theorem c01r_of_check (p : stmt) :
     c01r_check p = true ->
     forall o x0 x' evs o', start_ok x0 -> run lbs ubs f hk n_iter okc p o x0 = Some (x', evs, o') ->
       Forall (fun c => feasible lbs ubs c = true) (eval_args evs) /\
       Forall ev_ok2 evs /\ best_ok x' /\ restart_ok x'.
-  Proof. (* PROVE *) Abort.
+  Proof.
+    unfold c01r_check, c01r_result. intros Hal o x0 x' evs o' Hi Hr.
+    destruct (ra_absint 0 false p ra_init) as [[a' q'] al] eqn:E. destruct al; [|discriminate].
+    apply andb_true_iff in Hal as [Hal Hpop]. apply andb_true_iff in Hal as [Hbg Hdone].
+    pose proof (ra_sound p 0 ra_init (a', q') E o x0 [] x' evs o' Hi Hr) as [HF HR]. simpl in HF, HR.
+    assert (Hbest : best_ok x') by (eapply r_best; eassumption).
+    split; [|split; [|split]].
+    - pose proof (g_evs _ _ _ _ _ _ _ HF) as G8. simpl in G8. clear -G8.
+      induction G8 as [|e evs He _ IH]; simpl; [constructor|].
+      destruct e; simpl; try assumption. constructor; assumption.
+    - exact (r_evs _ _ _ _ HR).
+    - exact Hbest.
+    - apply restart_intro.
+      + intros j ag Hn. split.
+        * pose proof (g_pop _ _ _ _ _ _ _ HF j ag Hn) as Hlv. destruct (f_pop a'); try discriminate. apply Hlv. discriminate.
+        * eapply (r_done _ _ _ _ HR); try eassumption. intros i Hi0. discriminate.
+      + exact Hbest.
+      + eapply (lv_ok_wf lbs ubs f INIT). exact (g_tr _ _ _ _ _ _ _ HF).
+      + intros j ag Hn. eapply (lv_ok_wf lbs ubs f INIT). eapply (g_shall _ _ _ _ _ _ _ HF); [exact Hn|discriminate].
+  Qed.
 
   (* ---- every finite history of tasks on one space: run() re-creates its local arrays (placeholders [lc]) each time *)
   Inductive tasks : list stmt -> st -> list event -> st -> Prop :=
@@ -65,17 +1008,40 @@ Section RelSound.
       tasks ps x1 evs2 x2 ->
       tasks (p :: ps) x (evs1 ++ evs2) x2.
 
+  Lemma eval_args_app e1 e2 : eval_args (e1 ++ e2) = eval_args e1 ++ eval_args e2.
+  Proof. unfold eval_args. apply flat_map_app. Qed.
+
   Theorem c01_tasks (ps : list stmt) :
     Forall (fun p => c01r_check p = true) ps ->
     forall x0 evs x', restart_ok x0 -> tasks ps x0 evs x' ->
       Forall (fun c => feasible lbs ubs c = true) (eval_args evs) /\
       Forall ev_ok2 evs /\ restart_ok x'.
-  Proof. (* PROVE *) Abort.
+  Proof.
+    intros Hps x0 evs x' Hr Ht. induction Ht as [x|p ps x lc o x1 evs1 o1 evs2 x2 Hlc Hrun Ht IH].
+    - simpl. split; [constructor|split; [constructor|exact Hr]].
+    - inversion Hps as [|p0 ps0 Hp Hps']; subst.
+      destruct (c01r_of_check p Hp o (with_loc x lc) x1 evs1 o1 (Hr lc Hlc) Hrun) as (H1 & H2 & _ & H4).
+      destruct (IH Hps' H4) as (K1 & K2 & K3).
+      rewrite eval_args_app. split; [|split; [|exact K3]]; apply Forall_app; split; assumption.
+  Qed.
 
   (* a freshly built space (Feasible.init_ok) whose fitnesses are all the sentinel and whose best position is a placeholder *)
   Theorem fresh_restart_ok (x : st) :
     init_ok lbs ubs INIT x ->
     (forall ag, In ag (pop x) -> afit ag = KMAX) -> afit (best x) = KMAX -> In (apos (best x)) INIT ->
     restart_ok x.
-  Proof. (* PROVE *) Abort.
+  Proof.
+    unfold init_ok. intros HF Hfit Hbf Hbp. apply restart_intro.
+    - intros j ag Hn. split.
+      + apply (g_pop _ _ _ _ _ _ _ HF j ag Hn). discriminate.
+      + unfold below. rewrite Hbf, (Hfit ag (nth_error_In _ _ Hn)). apply klt_irrefl.
+    - right. split; [exact Hbf|]. split; [exact Hbp|]. eapply (lv_ok_wf lbs ubs f INIT). exact (g_best _ _ _ _ _ _ _ HF).
+    - eapply (lv_ok_wf lbs ubs f INIT). exact (g_tr _ _ _ _ _ _ _ HF).
+    - intros j ag Hn. eapply (lv_ok_wf lbs ubs f INIT). eapply (g_shall _ _ _ _ _ _ _ HF); [exact Hn|discriminate].
+  Qed.
 End RelSound.
+
+Print Assumptions c01_tasks.
+Print Assumptions c01r_of_check.
+Print Assumptions ra_sound.
+Print Assumptions fresh_restart_ok.
